@@ -875,6 +875,12 @@ impl ProtocolState {
 
             // Queue up a Connect packet
             let connect = self.create_connect();
+
+            // connect options are not validated when they are built; never put a CONNECT on the wire
+            // that breaks the static rules (a field over 65535 bytes would be encoded with a
+            // truncated length prefix)
+            validate_packet_outbound(&connect)?;
+
             let connect_op_id = self.create_operation(connect, None);
 
             self.enqueue_operation(connect_op_id, ProtocolQueueType::HighPriority, ProtocolEnqueuePosition::Front);
